@@ -76,8 +76,8 @@ class TucanListenerImpl(tucanListener):
         self._parse_sum_formula(ctx)
 
     def enterTuple(self, ctx: tucanParser.TupleContext):
-        index1 = int(ctx.node_index(0).getText())
-        index2 = int(ctx.node_index(1).getText())
+        index1 = _to_int(ctx.node_index(0).getText())
+        index2 = _to_int(ctx.node_index(1).getText())
         if index1 == index2:
             raise TucanParserException(
                 f'Error in tuple "{ctx.getText()}": Self-loops are not allowed.'
@@ -85,9 +85,9 @@ class TucanListenerImpl(tucanListener):
         self._add_bond(index1, index2)
 
     def enterNode_property(self, ctx: tucanParser.Node_propertyContext):
-        node_index = int(ctx.parentCtx.node_index().getText())
+        node_index = _to_int(ctx.parentCtx.node_index().getText())
         key = ctx.node_property_key().getText()
-        value = int(ctx.node_property_value().getText())
+        value = _to_int(ctx.node_property_value().getText())
         self._add_node_attribute(node_index, key, value)
 
     def _parse_sum_formula(self, formula_ctx):
@@ -98,7 +98,7 @@ class TucanListenerImpl(tucanListener):
             symbol = symbol_count_tuple.getChild(0).getText()
             count = 1
             if symbol_count_tuple.getChildCount() > 1:
-                count = int(symbol_count_tuple.getChild(1).getText())
+                count = _to_int(symbol_count_tuple.getChild(1).getText())
             self._add_atoms(symbol, count)
 
     def _add_atoms(self, element, count):
@@ -150,6 +150,17 @@ class TucanListenerImpl(tucanListener):
     def _validate_atom_index(self, index):
         if index >= len(self._atoms):
             raise TucanParserException(f"Atom with index {index + 1} does not exist.")
+
+
+def _to_int(number: str) -> int:
+    try:
+        return int(number)
+    except ValueError as e:
+        # The grammar admits arbitrarily long numbers; Python refuses to convert
+        # strings with more than sys.get_int_max_str_digits() digits.
+        raise TucanParserException(
+            f'Number "{number[:20]}..." with {len(number)} digits is too large.'
+        ) from e
 
 
 class RaisingErrorListener(ErrorListener):
